@@ -76,13 +76,26 @@ def docObjectEffect : Json := .obj [(kStatement, stmtWith (.obj [(nAllow, .bool 
 def docNoAction : Json := .obj [(kStatement, .obj [(kEffect, .str nAllow), (kResource, .str sArn)])]
 def docTwoSids : Json := .obj [(kStatement, stmtWith (.str nAllow) [(kSid, .str sTrue), (kSid, .str sTrue)])]
 
-/-! documents outside the grammar that are accepted (the four `quirk` regions) -/
+/-! documents outside the grammar that were accepted before the repair of `Statement`'s reader (two
+    action blocks; a malformed principal value) and are refused now -/
 def docBothActions : Json := .obj [(kStatement, stmtWith (.str nAllow) [(kNotAction, .str sGetObject)])]
 def docNumberPrincipal : Json := .obj [(kStatement, stmtWith (.str nAllow) [(kPrincipal, .num [53])])]
+/-- `NotAction` first, then `Action`; `Resource` twice; `Principal` next to `NotPrincipal`; a principal
+    that is a string other than `"*"`; `"Principal": null` -/
+def docNotActionThenAction : Json :=
+  .obj [(kStatement, .obj [(kEffect, .str nAllow), (kNotAction, .str sGetObject), (kAction, .str nStar),
+                           (kResource, .str sArn)])]
+def docResourceTwice : Json := .obj [(kStatement, stmtWith (.str nAllow) [(kResource, .str sArn)])]
+def docBothPrincipals : Json :=
+  .obj [(kStatement, stmtWith (.str nAllow) [(kPrincipal, .str nStar), (kNotPrincipal, .obj [(sAWS, .str sRoot)])])]
+def docStringPrincipal : Json := .obj [(kStatement, stmtWith (.str nAllow) [(kPrincipal, .str sRoot)])]
+def docNullPrincipal : Json := .obj [(kStatement, stmtWith (.str nAllow) [(kNotPrincipal, .null)])]
+
+/-! documents outside the grammar that are accepted (the two remaining `quirk` regions) -/
 def docEffectObjectForm : Json := .obj [(kStatement, stmtWith (.obj [(nAllow, .null)]) [])]
 def docArrayForm : Json := .arr [.str n2012, .null, stmtWith (.str nAllow) []]
 
-/-- what the four are read as: `doc2` without / with its version -/
+/-- what the two are read as (and the former two were): `doc2` without / with its version -/
 def policy2 (v : Option Version) : Policy :=
   { version := v, id := none,
     statement := .one { sid := none, principal := none, effect := .allow, action := .action (.one sListBucket),
